@@ -157,6 +157,17 @@ theorem asFound_violates :
 
 example : fieldVals (run fixed {} attack) 0 = [0, 1, 2, 3] := by decide
 
+/-- second hole of the code as found: `Field.full` / `from_raw(dom, scalar)` / `makeField(dom, scalar)` broadcast a WRITABLE 0-d
+    array which stays reachable as `f.raw.base`; writing through it changes the field (in NumPy: all entries at once, the model
+    keeps one copy per entry and shows the first).  The repaired `AnyArray.full` makes that array read-only. -/
+def baseAttack : List Op := [.fieldFull 4 3, .fieldRaw 0, .arrBase 1, .writeArr 0 0 99]
+
+theorem asFound_base_escapes :
+    guards asFound {} baseAttack = true ∧
+    fieldVals (run asFound {} (baseAttack.take 3)) 0 = [3, 3, 3, 3] ∧
+    fieldVals (run asFound {} baseAttack) 0 ≠ [3, 3, 3, 3] ∧
+    fieldVals (run fixed {} baseAttack) 0 = [3, 3, 3, 3] := by decide
+
 /-- guard (1) is necessary even for the repaired code: a view made BEFORE the construction stays writable -/
 theorem prior_view_escapes :
     guards fixed {} [.newArr [0, 1, 2, 3], .sliceArr 0 0 4, .fieldFromArr 0 4, .writeArr 1 0 99] = false ∧
